@@ -3,6 +3,7 @@ import Dashu.Model.Text.Bytes
 import Dashu.Model.Text.Float
 import Dashu.Model.Text.Capacity
 import Dashu.Model.Text.ChunksWord
+import Dashu.Model.Float.RoundOps
 /-
   Driver of group `text` (C07): integer formatting, parsing, byte and chunk encodings.
   For every case the *required* result (specification side: `digits`/`pad_integral`/grammar/
@@ -143,6 +144,7 @@ def convStr (p : Nat) : ConvResult → String
   | .unlimitedPrecision => "panic UnlimitedPrecision"
   | .lnExp => "ok lnexp-branch-not-mirrored"
 
+open Dashu.Model.Float in
 def floatDispatch (W : Nat) (op : String) (args : List String) : Option String :=
   match op, args with
   | "f.parse", [b, _m, s] => do
@@ -170,6 +172,21 @@ def floatDispatch (W : Nat) (op : String) (args : List String) : Option String :
     | _ => match fmtRadixTrait a.base a.mode f p k a.repr with
       | some t => pure ("ok " ++ natBytesToStr t)
       | none => none
+  | "f.with_precision", [a, ps] => do
+    let a ← parseFArg a; let p ← parseDecNat ps
+    let B := a.base
+    let r := fWithPrecision B a.mode coarseNone ⟨a.repr, a.prec⟩ p
+    let out := "ok " ++ reprStr r.1.repr ++ " " ++ toString r.1.prec ++ " " ++ flagStr r.2
+    -- specification side (the clause of C08): precision p; for p ≥ 1 the contract of C03 for the exact value and at
+    -- most p digits whenever the precision shrinks (unlimited = larger than any p); for p = 0 the value unchanged
+    let x := a.repr.toRat B
+    let okSpec :=
+      r.1.prec = p ∧
+      (if p = 0 then r.1.repr = a.repr ∧ r.2 = none
+       else contractOk B a.mode p x (r.1.repr.toRat B) r.2 ∧
+         ((a.prec > p ∨ a.prec = 0) → r.1.repr.digits B ≤ p) ∧
+         (¬ (a.prec > p ∨ a.prec = 0) → r.1.repr = a.repr ∧ r.2 = none))
+    pure (if okSpec then out else out ++ " !model-spec-mismatch with_precision")
   | "f.rt", [a] => do
     let a ← parseFArg a
     let text := fmtRound a.base a.mode {} none a.repr
